@@ -5,6 +5,7 @@ import (
 	"flag"
 	"fmt"
 	"os"
+	"sync/atomic"
 	"testing"
 
 	"verif/harness/internal/vstat"
@@ -25,6 +26,55 @@ var replayTries = flag.Int("c11.replaytries", 64, "how many times TestReplay run
 // generated case once).
 const shrinkTries = 16
 
+// whereNow: what the (single) case goroutine of a rapid part is doing, for the lock watch's message.
+var whereNow atomic.Pointer[func() string]
+
+func setWhere(format string, a ...any) {
+	s := fmt.Sprintf(format, a...)
+	setWhereFunc(func() string { return s })
+}
+
+func setWhereFunc(f func() string) { whereNow.Store(&f) }
+
+func getWhere() string {
+	if p := whereNow.Load(); p != nil {
+		return (*p)()
+	}
+	return ""
+}
+
+// lockVerdictMessage words the lock watch's verdict for one stuck case.
+func lockVerdictMessage(c stuckCase, glogV int, waiters string) string {
+	where := c.where
+	if where == "" {
+		where = "a call of the queue"
+	}
+	return fmt.Sprintf("%s never returns (glog verbosity %d): every goroutine of the case is blocked and at least one waits for a lock that nobody is left to release "+
+		"(goroutine states, not a timeout). A call that hangs with the queue's mutex held blocks every later Insert, Next and Len: pending items are never delivered and the waiting consumer is never told 'closed'.\ngoroutines waiting for a lock:\n%s", where, glogV, waiters)
+}
+
+// watchPart starts the lock watch for a part: the stuck cases become violations (replay = scenario,
+// the drawn glog verbosity is recorded with it) and the process ends, since goroutines that wait
+// for a lock for ever cannot be unwound.
+func watchPart(rec *vstat.Recorder, kind string) *lockWatch {
+	return startLockWatch(func(stuck []stuckCase, waiters string) {
+		for i, c := range stuck {
+			if i >= 3 {
+				break
+			}
+			v := vstat.GlogV()
+			if sc, ok := c.scenario.(*SeqScenario); ok {
+				v = sc.V
+			}
+			msg := lockVerdictMessage(c, v, waiters)
+			rec.AddViolation(c.scenario, kind, "deadlock-on-lock", "%s", msg)
+			fmt.Printf("C11 violation (deadlock-on-lock): %s\n", msg)
+		}
+		rec.Flush(true)
+		os.Exit(1)
+	})
+}
+
 // TestReplay re-runs a saved scenario of either kind without the generators.
 func TestReplay(t *testing.T) {
 	rf, ok, err := vstat.LoadReplay()
@@ -36,6 +86,17 @@ func TestReplay(t *testing.T) {
 	}
 	rec := vstat.New(rf.Property, "replay")
 	defer rec.Flush(true)
+	w := startLockWatch(func(stuck []stuckCase, waiters string) {
+		msg := lockVerdictMessage(stuck[0], replayV(rf), waiters)
+		rec.AddViolation(json.RawMessage(rf.Scenario), rf.Kind, "deadlock-on-lock", "%s", msg)
+		rec.Flush(true)
+		fmt.Println("REPLAY-FAIL:", msg)
+		os.Exit(1)
+	})
+	defer w.close()
+	slot := w.slot()
+	slot.begin(func() (any, string) { return json.RawMessage(rf.Scenario), getWhere() })
+	defer slot.end()
 	if msg := replayOne(t, rf); msg != "" {
 		rec.AddViolation(json.RawMessage(rf.Scenario), rf.Kind, rf.Class, "%s", msg)
 		fmt.Println("REPLAY-FAIL:", msg)
@@ -54,7 +115,7 @@ func replayOne(t *testing.T, rf *vstat.ReplayFile) string {
 	case rf.Part == "window":
 		return replayWindow(t, rf)
 	case rf.Part == "large":
-		return replayLarge(rf)
+		return replayLarge(t, rf)
 	case rf.Part == "stress":
 		return replayStress(t, rf)
 	case rf.Kind == "seq" || rf.Part == "exhaustive":
@@ -62,8 +123,11 @@ func replayOne(t *testing.T, rf *vstat.ReplayFile) string {
 		if err := json.Unmarshal(rf.Scenario, &sc); err != nil {
 			return "bad scenario: " + err.Error()
 		}
+		defer vstat.SetGlogV(sc.V)()
+		var progress atomic.Int32
 		for i := 0; i < *replayTries; i++ {
-			if _, err := runSeq(t, &sc); err != nil {
+			setWhereFunc(func() string { return seqWhere(&sc, int(progress.Load())) })
+			if _, err := runSeqP(t, &sc, &progress); err != nil {
 				return fmt.Sprintf("(run %d of %d) %v", i+1, *replayTries, err)
 			}
 		}
@@ -81,4 +145,16 @@ func replayOne(t *testing.T, rf *vstat.ReplayFile) string {
 		return ""
 	}
 	return "unknown replay kind " + rf.Kind
+}
+
+// replayV is the glog verbosity a replay runs at: the exhaustive part carries it inside the
+// scenario, the rapid parts in the replay file (vstat.LoadReplay has applied that one already).
+func replayV(rf *vstat.ReplayFile) int {
+	var sc struct {
+		V int `json:"glog_v"`
+	}
+	if json.Unmarshal(rf.Scenario, &sc) == nil && sc.V > 0 {
+		return sc.V
+	}
+	return rf.GlogV
 }
